@@ -1,9 +1,9 @@
 #!/bin/bash
 # usage: bt.sh <benign-patch> <prop> [grep-pattern] : runs one pack of bin/vcheck.new (or bin/vcheck) on a scratch worktree with the patch applied
 patch=$(readlink -f "$1"); prop="$2"; pat="${3:-violated|UNDECIDED|FLOOR|^C[0-9]+:}"
-wt=/tmp/wt_bt
+wt=${BT_WT:-/tmp/wt_bt}
 git -C /repo worktree remove --force $wt >/dev/null 2>&1; rm -rf $wt
 git -C /repo worktree add --detach $wt HEAD >/dev/null 2>&1 || exit 2
 git -C $wt apply "$patch" || exit 3
-bin=/verif/bin/vcheck.new; [ -x $bin ] || bin=/verif/bin/vcheck
+bin=${BT_BIN:-/verif/bin/vcheck.new}; [ -x $bin ] || bin=/verif/bin/vcheck
 cd /verif && VCHECK_LIST=${VCHECK_LIST:-} VCHECK_NO_MUTANTS=1 $bin -repo $wt -prop "$prop" -no-evidence 2>&1 | grep -E "$pat" | cut -c1-${CUT:-400}
